@@ -1063,7 +1063,9 @@ func (m *repoManager) deleteRepo(uuid dvid.UUID, passcode string) error {
 		delete(m.versionToUUID, v)
 	}
 	m.idMutex.Unlock()
-	return nil
+	// Persist the version <-> UUID maps without the deleted repo, or its UUIDs would be
+	// known again after a restart.
+	return m.putCaches()
 }
 
 // ---- Repo-level properties functions -------
